@@ -70,12 +70,12 @@ _orig_cs = NSM.NetlistSimplifyMixin._simplify_combine_series
 _orig_cp = NSM.NetlistSimplifyMixin._simplify_combine_parallel
 
 
-def _cs(self, skip, explain=False):
+def _cs(self, skip, explain=False, *args, **kwargs):
     LOG.append(['stage', 'series', [{'name': str(n), 'type': str(e.type), 'nodes': [str(x) for x in e.node_names]} for n, e in self._elements.items()]])
     return _orig_cs(self, skip, explain)
 
 
-def _cp(self, skip, explain=False):
+def _cp(self, skip, explain=False, *args, **kwargs):
     LOG.append(['stage', 'parallel', [{'name': str(n), 'type': str(e.type), 'nodes': [str(x) for x in e.node_names]} for n, e in self._elements.items()]])
     return _orig_cp(self, skip, explain)
 
@@ -83,12 +83,12 @@ def _cp(self, skip, explain=False):
 _orig_ci = NSM.NetlistSimplifyMixin._check_ic
 
 
-def _ci(self, subset):
+def _ci(self, subset, *args, **kwargs):
     # the element _check_ic pops from its copy of the set (set copies are
     # deterministic, so the same operations give the same element)
     first = next(iter(subset.copy()))
     LOG.append(['check_ic', sorted(str(a) for a in subset), str(first)])
-    return _orig_ci(self, subset)
+    return _orig_ci(self, subset, *args, **kwargs)
 
 
 NSM.NetlistSimplifyMixin._check_ic = _ci
